@@ -140,6 +140,11 @@ Definition c13_prop (k : c07_case) : bool :=
         | [] => true end &&
         (* a stream that ended without error class "stop" must not have delivered the stop block *)
         ((err =? 1) || (err =? 2) || (err =? 3) || forallb (fun e => negb (bnum (eblk e) =? stop)) events))) &&
+      (* the stop block itself is delivered when it exists (default and final-blocks-only filters: every first
+         delivery and every finality announcement of the canonical block passes one of them) *)
+      (negb ((err =? 1) && negb (stop =? 0) && ((filt =? 0) || (filt =? 1)) && existsb (fun b => bnum b =? stop) canon
+             && match cur with Some cu => (mode =? 0) || (rn (cu_blk cu) <? stop) | None => true end)
+       || existsb (fun e => bnum (eblk e) =? stop) events) &&
       (* rejected arguments deliver nothing *)
       ((negb (err =? 2)) || match events with [] => true | _ => false end) &&
       (* final-blocks-only refuses a cursor that is not on a final block *)
